@@ -156,12 +156,14 @@ fn resolve<S: HasComponent<Component>>(
         token::Value::CommandRef(command_ref) => command_ref,
         _ => unreachable!(),
     };
-    let (array_index, array_len) = *input
-        .state()
-        .component()
-        .array_refs
-        .get(&command_ref)
-        .unwrap();
+    let Some(&(array_index, array_len)) = input.state().component().array_refs.get(&command_ref)
+    else {
+        // The array is being referenced through an alias (e.g. created with \let).
+        return Err(input.fatal_error(error::SimpleTokenError::new(
+            token,
+            "this command is an alias of an array; arrays can only be accessed using their original name",
+        )));
+    };
     let inner_index = parse::Uint::<{ parse::Uint::MAX }>::parse(input)?.0;
     if inner_index >= array_len {
         return Err(input.fatal_error(error::SimpleTokenError::new(
